@@ -64,6 +64,7 @@ func (*TumblingWindow).extractWindowDataLocked
 
 /*@
 guarded_by Watermark.mu: currentWatermark, lastSentWatermark, maxEventTime, lastEventTime
+immutable Watermark: maxOutOfOrderness, idleTimeout
 monitor Watermark.mu inv wmInv
 
 pred wmInv(wm) := wm.lastSentWatermark <= wm.currentWatermark && wm.maxEventTime >= ZERO_T
@@ -118,6 +119,7 @@ recfunc rowsInFrom((init Slice_S_types.Row) (a (Array Int S_types.Row)) (n Int) 
 recfunc rowsFrom((a (Array Int S_types.Row)) (n Int) (lo Int)) Slice_S_types.Row := (ite (<= n 0) (mkSlice_S_types.Row ((as const (Array Int S_types.Row)) (mkS_types.Row (- 62135596800000000000) VNil 0)) 0 false) (let ((r (@rowsFrom a (- n 1) lo)) (x (select a (- n 1)))) (ite (<= lo (S_types.Row.Timestamp x)) (mkSlice_S_types.Row (store (Slice_S_types.Row.arr r) (Slice_S_types.Row.len r) x) (+ (Slice_S_types.Row.len r) 1) false) r)))
 
 guarded_by TumblingWindow.mu: data, currentSlot, initialized, triggeredWindows, callback
+immutable TumblingWindow: config, size
 monitor TumblingWindow.mu inv twInv
 
 pred twInv(tw) := tw.size > 0
@@ -178,5 +180,26 @@ func (*TumblingWindow).checkAndTriggerWindows
   acquires tw.mu
   modifies *
   before extractWindowDataLocked fire-only-closed-windows: *tw.currentSlot.End <= watermarkTime
+  loop 1 invariant held(tw.mu) && wheld(tw.mu) && twInv(tw)
+@*/
+
+/*@
+pred appended(nw, od, ts, data) := len(nw) == len(od) + 1 && forall(i, 0, len(od), nw[i] == od[i]) && nw[len(od)].Timestamp == ts && nw[len(od)].Data == data && nw[len(od)].Slot == nil
+pred isLate(wm, ts) := !zero(wm.currentWatermark) && ts < wm.currentWatermark
+pred inSlot(s, ts) := s != nil && *s.Start <= ts && ts < *s.End
+
+func (*TumblingWindow).Add
+  props C01 C02
+  acquires tw.mu
+  modifies *
+  observe late := IsEventTimeLate
+  ensures unplaceable-dropped: tw.config.TimeCharacteristic == "EventTime" && !second(extractTimestamp(data, tw.config.TsProp, tw.config.TimeUnit)) ==> tw.data == old(tw.data) && tw.currentSlot == old(tw.currentSlot) && tw.initialized == old(tw.initialized)
+  ensures on-time-buffered: tw.config.TimeCharacteristic == "EventTime" && second(extractTimestamp(data, tw.config.TsProp, tw.config.TimeUnit)) && !$late ==> appended(tw.data, old(tw.data), extractTimestamp(data, tw.config.TsProp, tw.config.TimeUnit), data)
+  ensures late-in-current-kept: tw.config.TimeCharacteristic == "EventTime" && second(extractTimestamp(data, tw.config.TsProp, tw.config.TimeUnit)) && $late && old(tw.initialized) && old(inSlot(tw.currentSlot, extractTimestamp(data, tw.config.TsProp, tw.config.TimeUnit))) ==> appended(tw.data, old(tw.data), extractTimestamp(data, tw.config.TsProp, tw.config.TimeUnit), data)
+  ensures late-dropped: tw.config.TimeCharacteristic == "EventTime" && second(extractTimestamp(data, tw.config.TsProp, tw.config.TimeUnit)) && $late && !inSlot(tw.currentSlot, extractTimestamp(data, tw.config.TsProp, tw.config.TimeUnit)) && tw.config.AllowedLateness <= 0 ==> seqeq(tw.data, old(tw.data))
+  ensures dropped-only-if-late: tw.config.TimeCharacteristic == "EventTime" && second(extractTimestamp(data, tw.config.TsProp, tw.config.TimeUnit)) && tw.config.AllowedLateness <= 0 && len(tw.data) == len(old(tw.data)) ==> $late
+  ensures first-event-seats-aligned-slot: tw.config.TimeCharacteristic == "EventTime" && second(extractTimestamp(data, tw.config.TsProp, tw.config.TimeUnit)) && !old(tw.initialized) && tw.config.AllowedLateness <= 0 ==> tw.initialized && tw.currentSlot != nil && *tw.currentSlot.Start == alignWindowStart(extractTimestamp(data, tw.config.TsProp, tw.config.TimeUnit), tw.size)
+  ensures slot-never-moved-by-ingest: old(tw.initialized) && tw.config.AllowedLateness <= 0 ==> tw.currentSlot == old(tw.currentSlot) && tw.initialized
+  ensures processing-time-always-buffered: tw.config.TimeCharacteristic != "EventTime" && second(extractTimestamp(data, tw.config.TsProp, tw.config.TimeUnit)) ==> appended(tw.data, old(tw.data), extractTimestamp(data, tw.config.TsProp, tw.config.TimeUnit), data)
   loop 1 invariant held(tw.mu) && wheld(tw.mu) && twInv(tw)
 @*/
